@@ -98,6 +98,12 @@ type State struct {
 	HavPrefix []string // class prefixes havocked by loops
 	Escaped   []string // repo classes whose objects were handed to code without contract
 	Held      []heldMon // monitors whose lock this thread holds
+	LocalCells []localCell // heap-allocated local variables (captured by closures) of the frames on this path
+}
+
+type localCell struct {
+	Ref   *Term
+	Class string
 }
 
 type heldMon struct {
@@ -108,7 +114,7 @@ type heldMon struct {
 }
 
 func (st *State) clone() *State {
-	n := &State{PC: st.PC, Frontier: st.Frontier, HavRepo: st.HavRepo, HavExt: st.HavExt, HavGhost: st.HavGhost, HavPrefix: append([]string{}, st.HavPrefix...), Escaped: append([]string{}, st.Escaped...), Held: append([]heldMon{}, st.Held...)}
+	n := &State{PC: st.PC, Frontier: st.Frontier, HavRepo: st.HavRepo, HavExt: st.HavExt, HavGhost: st.HavGhost, HavPrefix: append([]string{}, st.HavPrefix...), Escaped: append([]string{}, st.Escaped...), Held: append([]heldMon{}, st.Held...), LocalCells: append([]localCell{}, st.LocalCells...)}
 	n.Frames = make([]*Frame, len(st.Frames))
 	for i, f := range st.Frames {
 		nf := *f
